@@ -1927,3 +1927,60 @@ func ruleUnreadResetsEOS(c *Ctx, r *Report) {
 		}
 	}
 }
+
+// ---------------------------------------------------------------------------
+// R-READ-BOOKKEEPING (C19; added after seed C19j): Stream.UnreadRune tells "the read being undone found the end"
+// from lastRuneSize == 0: every ReadRune has to record the size it read, also the 0 of a read that met the end.
+// In Stream.ReadRune the store to lastRuneSize that follows the buffered read does not depend on the read's error:
+// its block carries no fact about an error value.
+func ruleReadBookkeeping(c *Ctx, r *Report) {
+	const rule = "R-READ-BOOKKEEPING"
+	desc := "ReadRune records the size of every read, the 0 of a read at the end included"
+	fn := c.method("Stream", "ReadRune")
+	if fn == nil {
+		r.undecided(rule, "anchor:Stream.ReadRune", "-", desc, "not found")
+		return
+	}
+	unconditional, any := false, false
+	var where ssa.Instruction
+	eachInstr(fn, func(in ssa.Instruction) {
+		st, ok := in.(*ssa.Store)
+		if !ok {
+			return
+		}
+		fa, ok := st.Addr.(*ssa.FieldAddr)
+		if !ok || fieldName(fa) != "lastRuneSize" {
+			return
+		}
+		// the store of the size that was read (not a constant reset on an early-return path)
+		if _, isConst := st.Val.(*ssa.Const); isConst {
+			return
+		}
+		any = true
+		where = in
+		dep := false
+		for f := range c.factsAt(in.Block()) {
+			if x, _, ok := nilCmp(f.cond); ok && isErrorType(x.Type()) {
+				if e, ok := x.(*ssa.Extract); ok {
+					if call, ok := e.Tuple.(*ssa.Call); ok {
+						if callee := call.Call.StaticCallee(); callee != nil && callee.Name() == "ReadRune" {
+							dep = true
+						}
+					}
+				}
+			}
+		}
+		if !dep {
+			unconditional = true
+		}
+	})
+	key := fname(fn) + "/lastRuneSize"
+	switch {
+	case !any:
+		r.bad(rule, key, c.Pos(fn.Pos()), desc, "ReadRune never records the size it read")
+	case unconditional:
+		r.ok(rule, key, c.at(where), desc, "the size is recorded whatever the buffered read reported", true)
+	default:
+		r.bad(rule, key, c.at(where), desc, "the size is recorded only when the buffered read succeeded: after a read that met the end lastRuneSize keeps the previous character's size, and the un-read of read_term/3's look-ahead no longer recognises `the end was read` - the stream is past before end_of_file was delivered")
+	}
+}
